@@ -6,6 +6,7 @@
 package main
 
 import (
+	"bytes"
 	"encoding/binary"
 	"encoding/hex"
 	"encoding/json"
@@ -485,6 +486,78 @@ func buildCases(r *vk.Run) []protox.Case {
 		d, _ = json.Marshal(caseData{Stage: "publishing", Gen: fmt.Sprintf("nest:%s:%d:meta", fam, max), Frag: -1})
 		cs = append(cs, protox.Case{Key: "publishing/nest-metadata-16MiB/" + fam, Data: d})
 	}
+	// (iii') AMF values cut short exactly at the end of the receive buffer: the chunk stream's message
+	// buffer has a capacity of a power of two (at least 128, 4096 when the chunk stream is new), and a
+	// decoder that looks ahead without checking the length reads into the spare capacity - harmless until
+	// the message ends where the capacity ends. Every tail (type marker x 0..8 following bytes x 4 byte
+	// patterns) at the top level, as an object property and as an ECMA-array element, padded so that
+	// the message is 0..4 bytes shorter than each power of two 128..4096; inside connect (fresh chunk
+	// stream), inside a later command (used chunk stream) and inside a publisher's metadata.
+	{
+		pats := [][]byte{{0, 0, 0, 0}, {0xff, 0xff, 0xff, 0xff}, {0, 0, 0, 1}, {0, 1, 0x61, 2}}
+		var tails [][]byte
+		for marker := 0; marker <= 0x11; marker++ {
+			for l := 0; l <= 8; l++ {
+				for pi, pt := range pats {
+					if l == 0 && pi > 0 {
+						continue
+					}
+					t := []byte{byte(marker)}
+					for i := 0; i < l; i++ {
+						t = append(t, pt[i%4])
+					}
+					tails = append(tails, t)
+				}
+			}
+		}
+		pad := func(head []byte, tail []byte, total int) []byte { // head + string property "p" of the right size + tail
+			n := total - len(head) - len(tail) - 6 // 00 01 'p' 02 hi lo
+			if n < 0 {
+				return nil
+			}
+			b := append([]byte{}, head...)
+			b = append(b, 0, 1, 'p', 2, byte(n>>8), byte(n))
+			b = append(b, bytes.Repeat([]byte{'x'}, n)...)
+			return append(b, tail...)
+		}
+		type ctx struct {
+			name, stage string
+			typ         uint8
+			head        []byte
+			key         bool // the tail is preceded by a property name
+		}
+		ctxs := []ctx{
+			{"connect-object", "handshaken", 20, append(amf(s("connect"), n(1)), 3), true},
+			{"connect-ecma", "handshaken", 20, append(amf(s("connect"), n(1)), 8, 0, 0, 0, 9), true},
+			{"publish-object", "created", 20, append(amf(s("publish"), n(3)), 3), true},
+			{"metadata-ecma", "publishing", 18, append(amf(s("@setDataFrame"), s("onMetaData")), 8, 0, 0, 0, 9), true},
+			{"metadata-object", "publishing", 18, append(amf(s("onMetaData")), 3), true},
+		}
+		for _, cx := range ctxs {
+			for k := 7; k <= 12; k++ {
+				if quick && k != 7 && k != 8 && k != 12 {
+					continue
+				}
+				for d := 0; d <= 4; d++ {
+					for ti, t := range tails {
+						tail := t
+						if cx.key {
+							tail = append([]byte{0, 1, 'k'}, t...)
+						}
+						body := pad(cx.head, tail, 1<<uint(k)-d)
+						if body == nil {
+							continue
+						}
+						csid := 3
+						if cx.typ == 18 {
+							csid = 4
+						}
+						cs = append(cs, mkCase(cx.stage, "amf-tail-at-capacity/"+cx.name, fmt.Sprintf("2^%d-%d tail#%d %x", k, d, ti, t), msgBytes(csid, cx.typ, 1, 0, body), -1))
+					}
+				}
+			}
+		}
+	}
 	// (vi) pairs over a reduced alphabet (state carried across messages)
 	if !quick {
 		var red [][]byte
@@ -530,13 +603,19 @@ func main() {
 	if r.ReplayIn != "" {
 		var c protox.Case
 		r.LoadReplay(&c)
-		protox.Run([]protox.Case{c}, 1, 120*time.Second, nil, nil, func(o protox.Outcome) { report(r, o) })
+		protox.RunLevels([]protox.Case{c}, 1, 120*time.Second, nil, func(o protox.Outcome) { report(r, o) })
 		r.Finish()
 	}
 	r.SetBudget(6*time.Minute, 60*time.Minute)
 	cases := buildCases(r)
+	// every case once more with the server logging at trace level (lal dumps received chunks only then)
+	for i, np := 0, len(cases); i < np; i++ {
+		if !strings.Contains(cases[i].Key, "16MiB") {
+			cases = append(cases, protox.TraceTwin(cases[i]))
+		}
+	}
 	r.Cov("cases", len(cases))
-	n := protox.Run(cases, 16, 120*time.Second, nil, r.OutOfTime, func(o protox.Outcome) { report(r, o) })
+	n := protox.RunLevels(cases, 16, 120*time.Second, r.OutOfTime, func(o protox.Outcome) { report(r, o) })
 	r.Eval(n)
 	if n < len(cases) {
 		r.NotExhaustive(fmt.Sprintf("time budget: %d of %d cases executed", n, len(cases)))
@@ -556,6 +635,11 @@ func report(r *vk.Run, o protox.Outcome) {
 		show = show[:120] + "..."
 	}
 	what := fmt.Sprintf("stage=%s input=%s%s frag=%d (%s %s)", d.Stage, show, d.Gen, d.Frag, o.Case.Key, d.Desc)
+	lv := ""
+	if protox.IsTrace(o.Case) {
+		what += " [log level trace]"
+		lv = "@trace"
+	}
 	switch {
 	case o.Killed:
 		cls = "hang-killed"
@@ -576,7 +660,7 @@ func report(r *vk.Run, o protox.Outcome) {
 	case o.Res.Other != "":
 		r.Violation(o.Res.OtherK+"/"+stageOf(o.Case.Key), o.Res.Other+" :: "+what, o.Case)
 	}
-	r.Class(mutClassCoarse(o.Case.Key) + "/" + cls)
+	r.Class(mutClassCoarse(o.Case.Key) + "/" + cls + lv)
 }
 
 func stageOf(k string) string { return strings.SplitN(k, "/", 2)[0] }
